@@ -191,12 +191,32 @@ class Ctx:
                       phases=[Phase.generate, Phase.shrink] if shrink else [Phase.generate],
                       print_blob=False)
 
+        # Shrinking is capped by wall clock: after the cap every further candidate "passes", the shrinker stops,
+        # and the best (last) violation found so far is reported.  The cap never turns a pass into a failure.
+        cap = float(os.environ.get('VERIF_SHRINK_CAP', '45' if self.quick else '240'))
+        state = {'last': None, 't0': None}
+
         @hypothesis.seed(sd)
         @st
         @given(strategy)
         def _t(v):
-            body(v)
-        _t()
+            if state['t0'] is not None and time.time() - state['t0'] > cap:
+                return
+            try:
+                body(v)
+            except Violation as e:
+                if state['t0'] is None:
+                    state['t0'] = time.time()
+                state['last'] = e
+                raise
+        try:
+            _t()
+        except Violation:
+            raise
+        except BaseException:
+            if state['last'] is not None and state['t0'] is not None and time.time() - state['t0'] > cap:
+                raise state['last']
+            raise
 
     def machine(self, name, machine_cls, max_examples, steps):
         import hypothesis
